@@ -69,6 +69,7 @@ type seqRun struct {
 	recovered    bool     // this server was started on a crash image: half-freed objects may exist
 	crossRenames int      // successful renames between two different directories
 	lastStatus   nfstypes.Nfsstat3
+	dumpFiles    [][]byte // handles of the regular files the last dumpTree saw
 }
 
 // fsckPoint dumps the logical disk for the structure checker: background freeing finished,
